@@ -66,6 +66,10 @@ CHECKS = {
   text='Coq theorem C18_write_consistent over an executable model of IVFCHashTree.write_data (any number of levels, SHA-256 uninterpreted with 32-byte digests): after a write of any data at any offset of a level of a fully consistent tree, the level holds the data laid over its previous contents, no level changes size and every block of every level up to it verifies against the updated hash levels and master hashes -- hence has an intact chain (C18_reopen_verifies), whatever block the write starts in. Extracted model compared with IVFCHashTree under write histories. Whole containers opened read-write: same-session read back, independent verification of the file, re-open with a fresh reader, untouched inactive copies and slack, CMAC for four schemes, read-only refusal.',
   note='Partial: DPFS copy selection under writes and the descriptor / table hash / CMAC update chain are oracle-only. Trusted: Coq kernel, extraction + driver, hand model IvfcWrite.v (tie 2), builder/verifier save.py, PyCryptodome CMAC.',
   technique='Rocq/Coq proof by induction over the hash levels (overlay/slice algebra) + correspondence + independent re-verification oracle'),
+ 'C16': dict(
+  text='Coq theorems over a graph model of closing (objects = files, windows, crypto wrappers, handles, readers; edges = what close() closes, which closed flags the closed-check decorators test, what a transfer goes through): for ALL graphs and ALL histories the closed set is exactly what the closes reach (so order and repetition are irrelevant), closing changes nothing outside the closure, and once a reader that covers a handle was closed every later call on the handle raises. The decidable side conditions (reader covers every handle incl. handles of nested readers; closing a handle leaves siblings and reader answering; the file is in the reader closure iff the closefd rule says so and in no handle closure) are discharged by vm_compute on the graph read off the live objects of every configuration in this run (10 reader kinds + 7 wrapper kinds x object/path/filesystem source x closefd default/True/False). Close histories on the real objects are compared with the extracted model and, independently, with the property.',
+  note='Handles are opened before the history; garbage collection is not modelled; NAND is exercised by C13 scenarios only. The per-class edge rules (harness/closegraph.py) are tied by the correspondence run. Trusted: Coq kernel, extraction + driver, closegraph rules, scenario matrix closecommon.py.',
+  technique='Rocq/Coq proof over all close/use histories of an ownership graph + per-configuration side conditions by computation on graphs regenerated from the live objects + correspondence'),
 }
 
 NOT_YET = 'check not built yet in this session (work in progress; see DESIGN.md section 10 order of work)'
